@@ -91,3 +91,57 @@ Definition run_case (c : list Z) : list Z :=
         ++ enc_children 0 children items (io_results io)
   | _ => []
   end.
+
+(* ---- K2: one block container of an arbitrary tree, its children's recorded LayoutOutputs as oracle values.
+   case: [kw?; kw; kh?; kh; pw?; pw; ph?; ph; coll_start; coll_end; n] ++ style(57) ++ n * (style(57) ++ [has; w; h; cw; ch; tp; tn; bp; bn; ct])
+   result: [outer_w; outer_h; ct; top_pos; top_neg; bottom_pos; bottom_neg]
+           ++ per in-flow child [order; x; y; w; h; ml; mr; mt; mb; kw?; kw; kh?; kh; avail_w]
+   [-1]: the container's width is not known on entry (content-based width: outside this class) *)
+Definition dec_opt (l : list Z) (i : nat) : option f32 := if Z.eqb (g l i) 1 then Some (fb (g l (S i))) else None.
+Definition CHILD2_LEN : nat := 67.
+
+Fixpoint dec_children2 (n : nat) (l : list Z) : list (BStyle f32 * ChildOut f32) :=
+  match n with
+  | O => []
+  | S k =>
+      let c := firstn CHILD2_LEN l in
+      let o := skipn STYLE_LEN c in
+      (fst (dec_style (firstn STYLE_LEN c)),
+       mkOut (mkSize (fb (g o 1)) (fb (g o 2))) (mkSize (fb (g o 3)) (fb (g o 4)))
+             (mkMS (fb (g o 5)) (fb (g o 6))) (mkMS (fb (g o 7)) (fb (g o 8))) (Z.eqb (g o 9) 1))
+        :: dec_children2 k (skipn CHILD2_LEN l)
+  end.
+
+Definition enc_opt (o : option f32) : list Z := match o with Some v => [1; tb v] | None => [0; 0] end.
+Definition b2z (b : bool) : Z := if b then 1 else 0.
+
+Definition enc_inflow2 (r : ItemResult f32) : list Z :=
+  [ir_order r; tb (ir_x r); tb (ir_y r); tb (s_w (ir_size r)); tb (s_h (ir_size r));
+   tb (r_left (ir_margin r)); tb (r_right (ir_margin r)); tb (r_top (ir_margin r)); tb (r_bottom (ir_margin r))]
+  ++ enc_opt (s_w (ir_known r)) ++ enc_opt (s_h (ir_known r)) ++ [tb (ir_avail_w r)].
+
+Definition is_visible (st : BStyle f32) : bool := match st_display st with DNone => false | _ => true end.
+
+Definition run_case2 (c : list Z) : list Z :=
+  let known0 := mkSize (dec_opt c 0) (dec_opt c 2) in
+  let parent := mkSize (dec_opt c 4) (dec_opt c 6) in
+  let coll := mkLine (Z.eqb (g c 8) 1) (Z.eqb (g c 9) 1) in
+  let n := Z.to_nat (g c 10) in
+  let rest := skipn 11 c in
+  let st := fst (dec_style (firstn STYLE_LEN rest)) in
+  let children := dec_children2 n (skipn STYLE_LEN rest) in
+  let known := block_styled_known st known0 parent in
+  match s_w known with
+  | None => [(-1)]
+  | Some outer_w =>
+      let inp := mkInput known parent coll in
+      let items := generate_item_list (map fst children) (block_node_inner_size st inp) in
+      let outs := map snd (filter (fun x => is_visible (fst x)) children) in
+      let P := block_params st inp outer_w in
+      let io := block_inflow P (combine items outs) in
+      let outer_h := block_outer_height st inp (io_height io) in
+      let ms := block_output_margins st inp io in
+      [tb outer_w; tb outer_h; b2z (block_can_collapse_through st inp (io_results io));
+       tb (ms_positive (fst ms)); tb (ms_negative (fst ms)); tb (ms_positive (snd ms)); tb (ms_negative (snd ms))]
+      ++ flat_map (fun r => if ir_inflow r then enc_inflow2 r else []) (io_results io)
+  end.
